@@ -601,6 +601,17 @@ def effect(g, op, attrs=None):
         sel = [x for x in g.clist(_ref(own)) if g.ids[x] in ids]
         return _compose(g, [('set_parent', t, p) for t in sel], attrs, 'each-selected')
 
+    if kind == 'ctor':
+        # ('ctor', mode, id-or-source, parent, children, preds, succs, extra): Task(id, ..., **extra) or source.clone(..., **extra)
+        mode, ref, extra = op[1], op[2], op[7]
+        tid = ref if mode == 'new' else g.ids[ref]
+        e = effect(g, ('new_task', tid, op[3], op[4], op[5], op[6]), attrs)
+        if extra in ('id', 'wbs', 'all_children'):
+            # a keyword that names a read-only member of Task: the call must raise (and change nothing)
+            return Effect(ILLEGAL, [g.copy()], (), 'read-only-keyword', ['keyword names a read-only member'])
+        e.note = 'constructor' if mode == 'new' else 'clone'
+        return e
+
     if kind == 'new_task':
         tid, p, ch, pr, su = op[1], op[2], op[3], op[4], op[5]
         g1 = g.copy()
